@@ -10,4 +10,4 @@ def _extra(ctx, info, rng, fam, hs):
 
 
 def main(ctx, replay):
-    return queuefam.run_property(ctx, "C04", 150, 3000, extra=_extra, extra_prop_files=("C04pull",))
+    return queuefam.run_property(ctx, "C04", 150, 3000, extra=_extra, extra_prop_files=("C04pull", "C04two"))
